@@ -99,6 +99,24 @@ def _ts(name):
         tc.mutations.add_row(1, 2, "1")
         tc.sort()
         return tc.tree_sequence()
+    if name == "ts_dead":
+        # two trees with different internal nodes; each tree has a site whose mutation sits on the node that
+        # exists only in the OTHER tree (a dead branch here, with samples below it there)
+        tc = tskit.TableCollection(2.0)
+        for t in (0, 0, 0):
+            tc.nodes.add_row(1, t)
+        tc.nodes.add_row(0, 1)
+        tc.nodes.add_row(0, 1)
+        for l, r, p, c in ((0, 1, 3, 0), (0, 1, 3, 1), (0, 1, 3, 2), (1, 2, 4, 0), (1, 2, 4, 1), (1, 2, 4, 2)):
+            tc.edges.add_row(l, r, p, c)
+        tc.sites.add_row(0.25, "0")
+        tc.sites.add_row(0.5, "0")
+        tc.sites.add_row(1.5, "0")
+        tc.mutations.add_row(0, 4, "1")
+        tc.mutations.add_row(1, 0, "1")
+        tc.mutations.add_row(2, 3, "1")
+        tc.sort()
+        return tc.tree_sequence()
     if name == "ts_full":
         return _full_tables().tree_sequence()
     if name == "ts_ld":
@@ -690,7 +708,8 @@ def consume(r):
 def object_names(tier):
     names = ["mod:tskit", "ts:ts_full", "ts:ts_one", "ts:ts_noedges", "ts:ts_empty", "ts:ts_nosamples",
              "tree:ts_full/null", "tree:ts_full/first", "tree:ts_full/last", "tree:ts_noedges/first",
-             "var:ts_full/undecoded", "var:ts_full/decoded", "ibd:ts_full", "ld:ts_full", "ld:ts_ld"]
+             "var:ts_full/undecoded", "var:ts_full/decoded", "var:ts_dead/undecoded", "tree:ts_dead/last",
+             "ibd:ts_full", "ld:ts_full", "ld:ts_ld"]
     cors = CORRUPTIONS_QUICK if tier == "quick" else CORRUPTIONS_ALL
     names += [f"tc:{c}" for c in cors]
     for t in TABLE_NAMES:
